@@ -92,7 +92,7 @@ def new_kvobj(st, tag, npts=None, degree=None):
     n = npts if npts is not None else fresh_int(tag + "_npts")
     d = degree if degree is not None else fresh_int(tag + "_deg")
     st.assume(z3.And(d >= 0, n >= d + 1))
-    return Obj("KnotVector", {"npts": Num(n, True), "degree": Num(d, True)})
+    return Obj("AbsKnotVector", {"npts": Num(n, True), "degree": Num(d, True)})
 
 
 def curve_state(P, W, cls="BaseCurve"):
@@ -180,9 +180,9 @@ CURVE_GETTERS = {
     "getattr:BaseCurve.degree": CallSpec(lambda eng, st, a, kw, node, exits: a[0].fields[KVF].fields["degree"]),
     "getattr:BaseCurve.ctrlpoints": CallSpec(g_field_tuple(PF)),
     "getattr:BaseCurve.weights": CallSpec(g_field_tuple(WF_)),
-    "getattr:KnotVector.npts": CallSpec(lambda eng, st, a, kw, node, exits: a[0].fields["npts"]),
-    "getattr:KnotVector.degree": CallSpec(lambda eng, st, a, kw, node, exits: a[0].fields["degree"]),
-    "getattr:KnotVector.knots": CallSpec(h_knots_abs),
+    "getattr:AbsKnotVector.npts": CallSpec(lambda eng, st, a, kw, node, exits: a[0].fields["npts"]),
+    "getattr:AbsKnotVector.degree": CallSpec(lambda eng, st, a, kw, node, exits: a[0].fields["degree"]),
+    "getattr:AbsKnotVector.knots": CallSpec(h_knots_abs),
     "func:iter": CallSpec(h_noop),
 }
 
@@ -213,7 +213,7 @@ ALL += [(CTRL_SETTER_NONE, "curves", "BaseCurve.ctrlpoints", "ctrlpoints.setter"
 # ---- weights.setter ---------------------------------------------------------------------------------------------------
 def h_tuple_any(eng, st, args, kw, node, exits):
     v = args[0]
-    if isinstance(v, Obj) and v.cls == "KnotVector":        # tuple(knotvector): its npts + degree + 1 values
+    if isinstance(v, Obj) and v.cls == "AbsKnotVector":        # tuple(knotvector): its npts + degree + 1 values
         s = E.fresh_seq("vector")
         st.assume(s.n == v.fields["npts"].z + v.fields["degree"].z + 1)
         GHOST_VECTORS.append((s, v))
@@ -267,3 +267,205 @@ WEIGHT_SETTER_NONE = Contract(
 
 ALL += [(weight_setter(P, W), "curves", "BaseCurve.weights", "weights.setter") for P in (0, 1) for W in (0, 1)]
 ALL += [(WEIGHT_SETTER_NONE, "curves", "BaseCurve.weights", "weights.setter")]
+
+
+# ---- setters as seen from their callers (contracts proved above) ------------------------------------------------------------
+def as_seq(v):
+    return v
+
+
+def h_set_ctrl(eng, st, args, kw, node, exits):
+    """self.ctrlpoints = value  by the setter's contract: None clears; otherwise ValueError unless len(value) == npts, then the field is value."""
+    o, v = args
+    if isinstance(v, NoneV):
+        o.fields[PF] = NoneV()
+        return NoneV()
+    if not isinstance(v, Seq):
+        raise E.Unsupported("ctrlpoints = %r" % (v,))
+    eng.raise_exc(st, "ValueError", v.n != o.fields[KVF].fields["npts"].z, node.lineno, exits)
+    o.fields[PF] = Seq(v.arr, v.n, False)
+    return NoneV()
+
+
+def mk_set_weights(assume_no_roots):
+    def h_set_weights(eng, st, args, kw, node, exits):
+        """self.weights = value  by the setter's contract: None clears; ValueError when len(value) != npts or the weight function has a zero
+        (find_roots), the curve unchanged; otherwise the field is value.   With assume_no_roots (A11) the zero test is assumed to pass."""
+        o, v = args
+        if isinstance(v, NoneV):
+            o.fields[WF_] = NoneV()
+            return NoneV()
+        if not isinstance(v, Seq):
+            raise E.Unsupported("weights = %r" % (v,))
+        refused = v.n != o.fields[KVF].fields["npts"].z
+        if not assume_no_roots:
+            refused = z3.Or(refused, E.fresh("weight_function_has_a_zero", z3.BoolSort()))
+        eng.raise_exc(st, "ValueError", refused, node.lineno, exits)
+        o.fields[WF_] = Seq(v.arr, v.n, False)
+        return NoneV()
+    return h_set_weights
+
+
+SETTER_CALLS = {"setattr:BaseCurve.ctrlpoints": CallSpec(h_set_ctrl), "setattr:BaseCurve.weights": CallSpec(mk_set_weights(False))}
+
+
+# ---- update ------------------------------------------------------------------------------------------------------------------
+def h_KnotVector(eng, st, args, kw, node, exits):
+    """KnotVector(x): x a KnotVector -> a knot vector with the same content; x a sequence that lists a knot vector -> that knot vector
+    (ValueError if the sequence is not a valid knot vector: its validity is not known at this level)."""
+    v = args[0]
+    if isinstance(v, Obj) and v.cls == "AbsKnotVector":
+        return v
+    if isinstance(v, Seq):
+        kv = kv_of_vector(v)
+        return kv
+    raise E.Unsupported("KnotVector(%r)" % (v,))
+
+
+def h_kv_eq(eng, st, args, kw, node, exits):
+    a, b = args
+    if a is b:
+        return BoolV(z3.BoolVal(True))
+    e = E.fresh("kv_equal", z3.BoolSort())
+    st.assume(z3.Implies(e, z3.And(*[a.fields[k].z == b.fields[k].z for k in ("npts", "degree")])))
+    return BoolV(e)
+
+
+def h_limits(eng, st, args, kw, node, exits):
+    o = args[0]
+    if "lo" not in o.fields:
+        o.fields["lo"], o.fields["hi"] = Num(fresh_real("umin"), False), Num(fresh_real("umax"), False)
+    return Tup([o.fields["lo"], o.fields["hi"]])
+
+
+def h_new_curve(eng, st, args, kw, node, exits):
+    """self.__class__(knotvector): a new curve on that knot vector without control points and weights."""
+    kv = h_KnotVector(eng, st, [args[0]], kw, node, exits)
+    return Obj("BaseCurve", {KVF: kv, PF: NoneV(), WF_: NoneV()})
+
+
+def h_fit_curve(eng, st, args, kw, node, exits):
+    """temp.fit_curve(other, nodes) by contract (shape part proved below as FIT_CURVE; values: C11): ValueError possible (temp is a fresh object),
+    otherwise temp gets npts(temp) control points, weights iff other has weights (npts(temp) of them), and a number is returned; other is unchanged."""
+    t, other = args[0], args[1]
+    eng.raise_exc(st, "ValueError", E.fresh("fit_refused", z3.BoolSort()), node.lineno, exits)
+    n = t.fields[KVF].fields["npts"].z
+    p = E.fresh_seq("fitted_points")
+    st.assume(p.n == n)
+    t.fields[PF] = p
+    if isinstance(other.fields[WF_], Seq):
+        w = E.fresh_seq("fitted_weights")
+        st.assume(w.n == n)
+        t.fields[WF_] = w
+    err = fresh_real("fit_error")
+    st.assume(err >= 0)
+    return Num(err, False)
+
+
+UPDATE_CALLS = dict(CURVE_GETTERS)
+UPDATE_CALLS.update(SETTER_CALLS)
+UPDATE_CALLS.update({
+    "func:KnotVector": CallSpec(h_KnotVector), "compare:Eq:AbsKnotVector": CallSpec(h_kv_eq), "getattr:AbsKnotVector.limits": CallSpec(h_limits),
+    "call:self.__class__": CallSpec(h_new_curve), "method:BaseCurve.fit_curve": CallSpec(h_fit_curve),
+    "func:float": CallSpec(lambda eng, st, a, kw, node, exits: a[0]),
+})
+UPDATE_CALLS_A11 = dict(UPDATE_CALLS)
+UPDATE_CALLS_A11["setattr:BaseCurve.weights"] = CallSpec(mk_set_weights(True))
+
+
+def h_update_call(eng, st, args, kw, node, exits):
+    """c.update(newknotvector, tolerance, nodes) by the contract proved as update_contract: ValueError with c unchanged, or c on the new knot
+    vector with INV (control points / weights present exactly when they were)."""
+    c = args[0]
+    kv = h_KnotVector(eng, st, [args[1]], kw, node, exits)
+    if isinstance(c.fields[PF], Seq) or isinstance(c.fields[WF_], Seq):     # without points and weights update never refuses (proved: raises={})
+        eng.raise_exc(st, "ValueError", E.fresh("update_refused", z3.BoolSort()), node.lineno, exits)
+    n = kv.fields["npts"].z
+    c.fields[KVF] = kv
+    for k, tag in ((PF, "updated_points"), (WF_, "updated_weights")):
+        if isinstance(c.fields[k], Seq):
+            s = E.fresh_seq(tag)
+            st.assume(s.n == n)
+            c.fields[k] = s
+    return NoneV()
+
+
+UPDATE_CALLS["method:BaseCurve.update"] = CallSpec(h_update_call)
+UPDATE_CALLS_A11["method:BaseCurve.update"] = CallSpec(h_update_call)
+
+
+def setup_update(P, W):
+    base = curve_state(P, W)
+
+    def setup(eng, st):
+        base(eng, st)
+        st.env["newknotvector"] = new_kvobj(st, "new")
+    return setup
+
+
+def update_contract(P, W, tol):
+    return Contract(
+        "curves.BaseCurve.update[P=%d,W=%d,tolerance=%s]" % (P, W, tol), setup=setup_update(P, W),
+        params={"self": "obj:BaseCurve", "newknotvector": "obj:KnotVector", "tolerance": tol, "nodes": "any"},
+        spec=CSPEC, calls=UPDATE_CALLS_A11 if (P and W) else UPDATE_CALLS,
+        ensures=["INV(self)", "npts(self) == kv_npts(newknotvector)", "deg(self) == kv_deg(newknotvector)",
+                 "iff(is_none(P(self)), is_none(old(P(self))))", "iff(is_none(W(self)), is_none(old(W(self))))"],
+        raises={"ValueError": None} if (P or W) else {}, exc_ensures=ATOMIC, canary="npts(self) == kv_npts(newknotvector) + 1")
+
+
+ALL += [(update_contract(P, W, tol), "curves", "BaseCurve.update", None) for P in (0, 1) for W in (0, 1) for tol in ("real", "none")]
+
+
+# ---- apply -------------------------------------------------------------------------------------------------------------------
+def h_np_dot(eng, st, args, kw, node, exits):
+    """np.dot(matrix, vector): ValueError unless cols(matrix) == len(vector); a vector with rows(matrix) entries (values not modelled here)."""
+    m, v = args
+    if not (isinstance(m, E.Mat) and isinstance(v, Seq)):
+        raise E.Unsupported("np.dot of %r and %r" % (m, v))
+    eng.raise_exc(st, "ValueError", m.c != v.n, node.lineno, exits)
+    r = E.fresh_seq("product")
+    st.assume(r.n == m.r)
+    return r
+
+
+def h_set_kv(eng, st, args, kw, node, exits):
+    """self.knotvector = value  by the setter's contract (KNOTVECTOR_SETTER below = update with default arguments)."""
+    return h_update_call(eng, st, [args[0], args[1]], kw, node, exits)
+
+
+def setup_apply(P, W):
+    base = curve_state(P, W)
+
+    def setup(eng, st):
+        base(eng, st)
+        new = new_kvobj(st, "new")
+        st.env["newknotvector"] = new
+        r, c = z3.Int("matrix_rows"), z3.Int("matrix_cols")
+        arr = z3.Array("matrix", z3.IntSort(), z3.ArraySort(z3.IntSort(), z3.RealSort()))
+        st.env["matrix"] = E.Mat(arr, r, c)
+        # precondition of apply (the callers' obligation): the matrix maps the old control points to those of the new knot vector
+        st.assume(z3.And(r == new.fields["npts"].z, c == st.env["self"].fields[KVF].fields["npts"].z))
+    return setup
+
+
+APPLY_CALLS = dict(UPDATE_CALLS_A11)
+APPLY_CALLS.update({"call:np.dot": CallSpec(h_np_dot), "setattr:BaseCurve.knotvector": CallSpec(h_set_kv)})
+
+APPLY_LOOPS = {
+    0: dict(invariant=["0 <= it0 and it0 <= len_it0", "len(oldctrlpoints) == npts(self)"], decreases="len_it0 - it0"),
+    1: dict(invariant=["0 <= it1 and it1 <= len_it1", "len(newctrlpoints) == it1", "len(oldctrlpoints) == npts(self)", "unchanged(self)"], decreases="len_it1 - it1"),
+    2: dict(invariant=["0 <= it2 and it2 <= len_it2", "len(newctrlpoints) == it1 + 1", "len(oldctrlpoints) == npts(self)", "unchanged(self)"], decreases="len_it2 - it2"),
+}
+
+
+def apply_contract(P, W):
+    return Contract(
+        "curves.BaseCurve.apply[P=%d,W=%d]" % (P, W), setup=setup_apply(P, W),
+        params={"self": "obj:BaseCurve", "newknotvector": "obj:KnotVector", "matrix": "any"},
+        spec=CSPEC, calls=APPLY_CALLS, loops=APPLY_LOOPS if (P and W) else {},
+        ensures=["INV(self)", "npts(self) == kv_npts(newknotvector)", "deg(self) == kv_deg(newknotvector)",
+                 "iff(is_none(P(self)), is_none(old(P(self))))", "iff(is_none(W(self)), is_none(old(W(self))))"],
+        raises={"ZeroDivisionError": None} if (P and W) else {}, exc_ensures=ATOMIC, canary="npts(self) == kv_npts(newknotvector) + 1")
+
+
+ALL += [(apply_contract(P, W), "curves", "BaseCurve.apply", None) for P in (0, 1) for W in (0, 1)]
